@@ -481,12 +481,32 @@ func fillCase(r *hlib.SplitMix64, gen string) row {
 			file.WriteString("\n")
 		}
 	}
-	if r.Intn(40) == 0 {
-		// one overlong line in front
-		long := `{"ip":"10.0.0.1","mac":"00:11:22:33:44:55","vendor":"` + strings.Repeat("x", 65536+r.Intn(100)) + `"}` + "\n"
+	if r.Intn(30) == 0 {
+		// one long line in front: clearly overlong, or exactly at the scanner's limit (65535 raw bytes
+		// still load, 65536 do not; a CR counts)
+		head, tail := `{"ip":"10.0.0.1","mac":"00:11:22:33:44:55","vendor":"`, `"}`
+		eol := "\n"
+		if r.Intn(3) == 0 {
+			eol = "\r\n"
+		}
+		raw := 65536 + r.Intn(100) // raw length of the line incl. a CR
+		switch r.Intn(3) {
+		case 0:
+			raw = 65535
+		case 1:
+			raw = 65536
+		}
+		pad := raw - len(head) - len(tail) - (len(eol) - 1)
+		long := head + strings.Repeat("x", pad) + tail + eol
 		file = *bytes.NewBuffer(append([]byte(long), file.Bytes()...))
-		classes["overlong-line"] = true
-		badAt, badKind = 0, 4
+		if raw >= 65536 {
+			classes["overlong-line"] = true
+			badAt, badKind = 0, 4
+		} else {
+			classes["longest-line"] = true
+			ents = append([]entry{{ip: net.IP{10, 0, 0, 1}.To16(), mac: net.HardwareAddr{0, 0x11, 0x22, 0x33, 0x44, 0x55}}}, ents...)
+			pool = append(pool, []byte{10, 0, 0, 1})
+		}
 	}
 	cache := arp.NewCache()
 	err := arp.FillCache(cache, bytes.NewReader(file.Bytes()))
